@@ -259,6 +259,8 @@ func TestC20(t *testing.T) {
 				concurrent(rec)
 			} else if c.Type == "(arch-386)" {
 				otherArch(rec)
+			} else if c.Type == "(init-time)" {
+				initTime(rec)
 			}
 			return
 		}
@@ -338,7 +340,99 @@ func TestC20(t *testing.T) {
 		regenerate(rec)
 		concurrent(rec)
 		otherArch(rec)
+		initTime(rec)
 	})
+}
+
+// initTime compiles the repository's types.go and types_string.go as a
+// package of their own together with a file whose package-level variables
+// call String on every named constant, i.e. while the package is still being
+// initialised (a package-level table, a registry or a log line of the
+// library itself): the names are right from the first moment on.
+func initTime(rec *hx.Recorder) {
+	repo := hx.RepoDir()
+	build := os.Getenv("VERIF_BUILD")
+	if build == "" {
+		build = os.TempDir()
+	}
+	dir, err := os.MkdirTemp(build, "c20-init-")
+	if err != nil {
+		rec.Note("init-time: " + err.Error())
+		return
+	}
+	defer os.RemoveAll(dir)
+	for _, n := range []string{"types.go", "types_string.go"} {
+		data, err := os.ReadFile(filepath.Join(repo, n))
+		if err != nil {
+			rec.Note("init-time: " + err.Error())
+			return
+		}
+		os.WriteFile(filepath.Join(dir, n), data, 0o644)
+	}
+	os.WriteFile(filepath.Join(dir, "go.mod"), []byte("module initprobe\n\ngo 1.21\n"), 0o644)
+	var sb strings.Builder
+	sb.WriteString("package fit\n\nimport \"testing\"\n\nvar initProbe = []struct {\n\tconst_, got string\n}{\n")
+	n := int64(0)
+	for i := range genTypes {
+		ti := &genTypes[i]
+		if ti.Name == "Bool" {
+			continue
+		}
+		for _, c := range ti.Consts {
+			fmt.Fprintf(&sb, "\t{%q, %s.String()},\n", c.Name, c.Name)
+			n++
+		}
+	}
+	sb.WriteString("}\n\nfunc TestInitProbe(t *testing.T) {\n\tfor _, p := range initProbe {\n\t\tt.Logf(\"PROBE %s %s\", p.const_, p.got)\n\t}\n}\n")
+	os.WriteFile(filepath.Join(dir, "zz_initprobe_test.go"), []byte(sb.String()), 0o644)
+	cmd := exec.Command("go", "test", "-vet=off", "-count=1", "-v", "-run", "^TestInitProbe$", ".")
+	cmd.Dir = dir
+	cmd.Env = append(os.Environ(), "GOFLAGS=-mod=mod", "GOWORK=off")
+	out, err := cmd.CombinedOutput()
+	if err != nil {
+		rec.Note(fmt.Sprintf("init-time: the probe package could not be run (%v): %s", err, firstLine(string(out))))
+		return
+	}
+	got := map[string]string{}
+	for _, line := range strings.Split(string(out), "\n") {
+		if i := strings.Index(line, "PROBE "); i >= 0 {
+			f := strings.SplitN(line[i+6:], " ", 2)
+			if len(f) == 2 {
+				got[f[0]] = f[1]
+			}
+		}
+	}
+	rec.Eval("init-time", n)
+	rec.NonTrivialEnum(n)
+	for i := range genTypes {
+		ti := &genTypes[i]
+		if ti.Name == "Bool" {
+			continue
+		}
+		for _, c := range ti.Consts {
+			g, ok := got[c.Name]
+			if !ok {
+				rec.Note("init-time: no probe output for " + c.Name)
+				return
+			}
+			mask := uint64(1)<<uint(ti.Bits) - 1
+			if ti.Bits == 64 {
+				mask = ^uint64(0)
+			}
+			match := false
+			var names []string
+			for _, o := range ti.Consts {
+				if o.Value&mask == c.Value&mask {
+					names = append(names, strings.TrimPrefix(o.Name, ti.Name))
+					match = match || g == names[len(names)-1]
+				}
+			}
+			if !match {
+				rec.Fail("init-time", "", fmt.Sprintf("%s.String() evaluated in a package-level initialiser of the package that declares the type returned %q, want one of %q", c.Name, g, names), strCase{"(init-time)", 0})
+				return
+			}
+		}
+	}
 }
 
 // regenerate runs the repository's own stringer (through the verif-tagged
